@@ -168,6 +168,7 @@ func checkC09(c *Ctx, r *Report) {
 		}
 	}
 	r.Count("verdict_branches", verdicts)
+	r.Floor("positive_controls", 3)
 	r.Floor("text_amd64", 15)
 	r.Floor("text_arm64", 12)
 	r.Floor("instructions", 20000)
